@@ -1295,9 +1295,26 @@ def x2_alias_routes(ctx: Ctx):
     for cls in sorted(MODELLED):
         ctx.check(cls in case_of and case_of[cls] is not wild, ALIAS, case_of.get(cls, wild).pattern, q, f'{cls} has its own route', f'{cls} falls to the catch-all')
 
+    def unconditional(cls_guard: str, pair: frozenset) -> Optional[str]:
+        """None if some merge of `pair` under the arm depends on nothing but its operand having a region (a scalar has
+        none); else the condition it also depends on."""
+        extra = None
+        for e in evs(cls_guard, 'self.regions.merge'):
+            if frozenset(show(a) for a in e.args[:2]) != pair:
+                continue
+            more = [show(g2) for g2 in e.guards[1:] if not (show(g2).startswith('(self._region_for(') and show(g2).endswith(' is not None)'))]
+            if not more:
+                return None
+            extra = more[0]
+        return extra
+
     def expect(cls_guard: str, what: str, want_pairs: set[frozenset], detail: str):
         got = merge_pairs(cls_guard)
         ctx.check(want_pairs <= got, ALIAS, f, q, what, f'merges {sorted(sorted(p) for p in got)}: {detail}')
+        for pair in want_pairs & got:
+            cond = unconditional(cls_guard, pair)
+            ctx.check(cond is None, ALIAS, f, q, what + ' -- whenever the operand is a list, whatever its element type',
+                      f'the link is made only when `{cond}`: a list of tuples that hold lists (or any shape the condition leaves out) loses it, and two names of one list are reported distinct')
 
     expect('case(e, ListSlice())', 'xs[i:j]: the slice\'s elements are the source\'s elements',
            {frozenset(["self._part(self._alloc('slice', e))", 'self._part(self._region_for(e.value))'])}, 'a row reached through the slice would not alias the row in the source')
@@ -1315,6 +1332,9 @@ def x2_alias_routes(ctx: Ctx):
                       'self._part(self._region_for(proj(1, each(enumerate(e.args)))))'])
     ctx.check(want in ez, ALIAS, f, q, 'enumerate / zip: field 1 (enumerate) or field i (zip) of each element is an element of argument i',
               f'merges {sorted(sorted(p) for p in ez)}: a row read through enumerate / zip would not alias the row in the source')
+    if want in ez:
+        cond = unconditional('case(e, Enumerate() | Zip())', want)
+        ctx.check(cond is None, ALIAS, f, q, 'enumerate / zip: the link is made whenever the argument is a list', f'made only when `{cond}`')
     r = rets('case(e, Fst() | Snd())')
     ok = len(r) == 1 and 'self._part(self._region_for(e.args[0]), ite(isinstance(e, Fst), 0, 1))' in show(r[0])
     ctx.check(ok, ALIAS, f, q, 'fst / snd: field 0 / 1 of the tuple', f'got {[show(x)[:120] for x in r]}')
@@ -1430,6 +1450,9 @@ RULES = [
 from ..selftest import Mutant  # noqa: E402
 
 MUTANTS = [
+    Mutant('slice-of-non-rows-shares-nothing', ALIAS, "                base = self._region_for(e.value)\n                if base is not None:\n                    self.regions.merge(\n                        self._part(region), self._part(base),",
+           "                base = self._region_for(e.value)\n                ty = self.types.by_expr.get(e)\n                if base is not None and isinstance(ty, ListType) and isinstance(ty.elt, ListType):\n                    self.regions.merge(\n                        self._part(region), self._part(base),", 'C13.X2',
+           'seeded change C13e: a slice of a list of tuples that hold lists loses its link to the source'),
     Mutant('ragged-rows-take-the-first-length', 'fpy2/analysis/type_infer.py', "                for e in elt_tys[1:]:\n                    first = self._common_lengths(first, cast(Type, e))\n", "", 'C13.G4',
            'finding F85 before its repair: RAG = [[1.0, 2.0], [3.0]]; row = RAG[1] is reported two long'),
     Mutant('slice-keeps-the-length', 'fpy2/analysis/type_infer.py', "        if isinstance(resolved, ListType) and resolved.length is not None:\n            return ListType(resolved.elt)\n", "", 'C13.G4',
